@@ -5,7 +5,7 @@
 From Coq Require Import String.
 From Coq Require Import List Arith ZArith.
 Import ListNotations.
-From YP Require Import Base.Str Term.Term Term.Fast Unify.Unify Unify.Fast Engine.Frame Engine.Db Engine.DbCursor Engine.DbFacts Engine.DbFactsThms Engine.DbHeap Engine.DbHeapThms Engine.DbProg Engine.DbProgInv Engine.DbProgVisits.
+From YP Require Import Base.Str Term.Term Term.Fast Unify.Unify Unify.Fast Engine.Frame Engine.Db Engine.DbCursor Engine.DbFacts Engine.DbFactsThms Engine.DbHeap Engine.DbHeapThms Engine.DbHeapRet Engine.DbProg Engine.DbProgInv Engine.DbProgVisits.
 
 (* "A fact stored by assert holds the value its argument had at the moment of the assertion, at every
    depth of the term": the stored arguments are den s values (deep dereference: any chain, any nesting)
@@ -118,6 +118,74 @@ Example C13_nonvacuous :
   let s := [(1, TAtom (d "a")); (0, TFun (d "f") [TVar 1])] in
   wf s /\ answer_init s 3 [TVar 0; TVar 2; TVar 2] = ([TFun (d "f") [TAtom (d "a")]; TVar 3; TVar 3], 4).
 Proof. split; [repeat constructor|vm_compute; reflexivity]. Qed.
+
+(* ---- "fresh at every use" ACROSS TIME (Engine/DbHeapRet.v): histories that also contain findall/3 (the use of the
+   fact runs to its end inside, the answers stay in the bag) and in which the caller keeps every answer it ever
+   obtained (kept outs: the arguments of every goal at each of its answers, every row of every read).
+   rrun = the heap machine with RBase (a step of DbHeap), RFindall, RKept (look at the retained answers). ----
+
+   In the state reached by ANY such history, the copy that the NEXT use of a stored fact unifies with is made of cells
+   that do not exist yet; so it shares no variable with any answer handed out before (neither as it was, nor in its
+   value under the bindings of now), with any binding of the heap (findall results live there), or with the value of
+   any term of the program.  A use that ended, and whose answers are still held by somebody, can therefore never be
+   constrained by a later use, and a later use never finds its variables already bound. *)
+Theorem C13_sequential_uses_fresh : forall fuel p ops h outs,
+  Forall (rop_ok p) ops -> rrun fuel (hinit p) ops = Some (h, outs) ->
+  forall k f goal, In f (hdb h k) ->
+    answer_match fuel (hs h) (hn h) goal (fargs f) =
+      (unify_arrays fuel (hs h) goal (fst (copy_args [] (fargs f) (hn h))), snd (copy_args [] (fargs f) (hn h))) /\
+    (forall c w, In c (fst (copy_args [] (fargs f) (hn h))) -> occurs w c = true ->
+      hn h <= w /\
+      (forall a t, In a (kept outs) -> In t a -> occurs w t = false /\ occurs w (den (hs h) t) = false) /\
+      (forall v u, In (v, u) (hs h) -> v <> w /\ occurs w u = false) /\
+      (forall t, tprog p t -> occurs w (den (hs h) t) = false)).
+Proof. exact sequential_uses_fresh. Qed.
+Print Assumptions C13_sequential_uses_fresh.
+
+(* "unbound variables inside a stored fact belong to the fact": the fact's own cells never escape - no answer ever
+   handed out (then or under the bindings of now) and no value of a term of the program mentions one *)
+Theorem C13_fact_vars_never_escape : forall fuel p ops h outs,
+  Forall (rop_ok p) ops -> rrun fuel (hinit p) ops = Some (h, outs) ->
+  forall k f u w, In f (hdb h k) -> In u (fargs f) -> occurs w u = true ->
+    (forall a t, In a (kept outs) -> In t a -> occurs w t = false /\ occurs w (den (hs h) t) = false) /\
+    (forall t, tprog p t -> occurs w (den (hs h) t) = false).
+Proof. exact fact_vars_never_escape. Qed.
+Print Assumptions C13_fact_vars_never_escape.
+
+(* the invariant behind both, from any state that satisfies it: K = answers retained so far *)
+Theorem C13_retained_answers_invariant : forall fuel ops p F h h' outs K,
+  inv p F h -> Forall (lin (Pc (hn h) F)) K -> Forall (rop_ok p) ops -> rrun fuel h ops = Some (h', outs) ->
+  exists F', inv p F' h' /\ (forall w, F w = true -> F' w = true) /\ Forall (lin (Pc (hn h') F')) (K ++ kept outs).
+Proof. exact rrun_inv. Qed.
+Print Assumptions C13_retained_answers_invariant.
+
+(* non-vacuity: assertz(p(f(_))); findall(X, p(X), L) - the use ends inside, L = [f(_G5)] keeps its answer; a goal
+   p(Y) whose use ends (redo), its answer f(_G6) retained by the caller; then p(Z), Z = f(a): the third use gets the
+   new cell _G7; L is still [f(_G5)] and the retained answers are still f(_G6), f(_G7 := a) *)
+Example C13_sequential_nonvacuous :
+  let a := TAtom (d "a") in let f x := TFun (d "f") [x] in
+  let ops := [RBase (HAssert false (TFun (d "p") [f (TVar 4)])); RFindall (TVar 0) (d "p") [TVar 0] (TVar 1);
+              RBase (HCall (d "p") [TVar 2]); RBase HRedo; RBase (HCall (d "p") [TVar 3]);
+              RBase (HUnify (TVar 3) (f a)); RKept; RBase (HObs [TVar 1; TVar 3])] in
+  Forall (rop_ok 5) ops /\
+  exists h outs, rrun 50 (hinit 5) ops = Some (h, outs) /\
+    outs = [HOk; HOk; HAns [f (TVar 7)]; HEnd; HAns [f (TVar 8)]; HOk; HOk;
+            HSeen [TFun (d ".") [f (TVar 6); TAtom (d "[]")]; f a]] /\
+    kept outs = [[f (TVar 7)]; [f (TVar 8)]] /\
+    map (map (den (hs h))) (kept outs) = [[f (TVar 7)]; [f a]].
+Proof.
+  cbv zeta. split.
+  - repeat match goal with
+    | |- Forall _ [] => apply Forall_nil
+    | |- Forall _ (_ :: _) => apply Forall_cons
+    | |- _ /\ _ => split
+    | |- True => exact I
+    | |- rop_ok _ _ => simpl
+    | |- op_ok _ _ => simpl
+    | |- tprog _ _ => intros w Hw; do 5 (destruct w as [|w]; [reflexivity|]); simpl in Hw; discriminate
+    end.
+  - eexists. eexists. split; [vm_compute; reflexivity|]. split; [reflexivity|]. split; vm_compute; reflexivity.
+Qed.
 
 (* ---- the same invariant OVER ALL COMPILED-CODE HISTORIES (DbProg.solve: goals on dynamic facts and on compiled
    predicates, =, asserta/assertz, retract, retractall, goals suspended inside each other to any depth) ----
